@@ -728,6 +728,7 @@ func incdecTable(c *Ctx, rule string, eu *ssa.Function) {
 	c.check(target == "X", rule, "incdec-target", p.InstrPos(asg), "the operand cell is the assignment target", "++/-- assign to "+target+", not to the operand's cell")
 	// the new value: NewCell(newValue) where newValue is a local var stored under tag facts
 	got := map[string]string{}
+	msOp := p.maySetOf(eu, "expr.OpToken.Tag", tokenTagNames(p))
 	allInstrs(eu, func(in ssa.Instruction) {
 		phi, ok := in.(*ssa.Phi)
 		if !ok || !isLangNamed(phi.Type(), "Value") {
@@ -738,10 +739,14 @@ func incdecTable(c *Ctx, rule string, eu *ssa.Function) {
 			if !strings.HasPrefix(r, "val((asFloat64(&X.Value) ") {
 				continue
 			}
-			for _, rl := range F.OnEdge(phi.Block().Preds[i], phi.Block()).Rels() {
-				if rl.op == relEQ && abbrevBinary(p.Render(rl.x)) == "op" {
-					got[p.Render(rl.y)] = r
+			// which operator: the may-set of the operator tag where this value is computed (a switch
+			// arm, or the else of `if op == ++` inside the arm for ++ and --)
+			if def, ok := e.(ssa.Instruction); ok {
+				if tags := msOp.At(def.Block()); len(tags) == 1 {
+					got[tags[0]] = r
 				}
+			} else if tags := msOp.At(phi.Block().Preds[i]); len(tags) == 1 {
+				got[tags[0]] = r
 			}
 		}
 	})
